@@ -46,6 +46,11 @@ theorem makeFrame_first_axis (x y : Vec3) (hx : 1 / 2 ≤ norm3 x) :
   · rw [e, normalize3_snd_of_ge x hm]
   · rw [e]; exact normalize3_snd_unit x
 
+/-- non-vacuity of `makeFrame_first_axis`: a normal of length 1 -/
+example : (1 : ℝ) / 2 ≤ norm3 ((0, 0, 1) : Vec3) := by
+  have : norm3 ((0, 0, 1) : Vec3) = 1 := by simp [norm3, dot3]
+  rw [this]; norm_num
+
 /-- **Orthonormal contact frame.**  For a unit normal `x` (what every collider writes into `frame[0..2]`)
     and a tangent hint `y` that is either "undefined" (‖y‖² < 1/4, in particular the zero vector written by
     the primitive colliders) or has a Gram–Schmidt residual `y − (x·y)x` of length ≥ mjMINVAL, `mju_makeFrame`
@@ -335,7 +340,7 @@ theorem planeSphere_pos_midpoint (hn : dot3 n n = 1) (h : (planeSphere con margi
   simp only [s1, s2]
   obtain ⟨a0, a1, a2⟩ := c2; obtain ⟨n0, n1, n2⟩ := n; obtain ⟨p0, p1', p2⟩ := p1
   simp only [dot3, add3, sub3, scl3, Prod.mk.injEq] at hn ⊢
-  refine ⟨⟨?_, ?_, ?_⟩, ?_, ⟨?_, ?_, ?_⟩⟩ <;> try ring
+  refine ⟨⟨by ring, by ring, by ring⟩, ?_, ⟨by ring, by ring, by ring⟩⟩
   linear_combination (-((a0 - p0) * n0 + (a1 - p1') * n1 + (a2 - p2) * n2)) * hn
 
 /-- **(c − p)·n is the true signed distance of the centre from the plane** (unit normal): no point q of the
